@@ -3,6 +3,8 @@ import StoneVerif.Model.Lex
 import StoneVerif.Model.Stdin
 import StoneVerif.Lemmas.Lex
 import StoneVerif.Lemmas.Stdin
+import StoneVerif.Model.DocTrim
+import StoneVerif.Lemmas.DocTrim
 /-!
 Property theorems for C11 (layout and delivery do not change the meaning), parts A and C: what is *proved*.
 
@@ -14,6 +16,10 @@ Property theorems for C11 (layout and delivery do not change the meaning), parts
 * stdin splitter model (`Model/Stdin.lean`, stone/cli.py): `stdin_split`, `stdin_split_names`,
   `stdin_split_preamble`, `stdin_split_string`, `stdin_split_regression` (D14 repaired), `stdin_split_witness`
   (what still cuts a text: a doc-string line beginning with the word), table `stdin_split_table`
+* documentation-string rule of the parser (`Model/DocTrim.lean`, stone/frontend/parser.py `p_docstring_string`):
+  `doc_trailing_ws`, `doc_trailing_ws_text` (white space appended to any lines of a doc text is not seen),
+  `doc_clean_lines`, `doc_clean_no_trailing`, `doc_clean_idem`, `doc_last_line_only_witness` (trimming only the end
+  of the text is not enough), table `docstring_rule_table`
 
 File order, definition order and splitting (part B of the check) are NOT theorems here: they are tested on the
 real compiler and the real backends by harness/suites/layout.py.
@@ -291,5 +297,70 @@ still cut if a line of a multi-line documentation string begins with the word `n
 theorem stdin_split_witness :
     (splitStdin "namespace a\n    \"Types of this\nnamespace and others.\"\n").map Prod.snd
       = ["namespace a\n    \"Types of this\n", "namespace and others.\"\n"] := by decide
+
+/-! ## Documentation strings: white space at the end of a line of a doc text (part D) -/
+section DocTrim
+open StoneVerif.DocTrim
+
+/-- the rule `docstring : STRING` and its one statement, which `DocTrim.docClean` follows -/
+theorem docstring_rule_table :
+    Tables.parserDocstringProduction = "docstring : STRING" ∧
+    Tables.parserDocstringStatements =
+      ["p[0] = '\\n'.join([line.rstrip() for line in p[1].split('\\n')])"] := by decide
+
+/-- **doc_trailing_ws**: a doc text given by its lines (`ls`, none contains a newline); `ws[k]` - any white space that
+is not a line break - is appended to line `k`, for every `k` at once.  The parser's rule gives the same text. -/
+theorem doc_trailing_ws (ls ws : List (List Char)) (hne : ls ≠ []) (hl : ∀ l ∈ ls, '\n' ∉ l)
+    (hw : ∀ w ∈ ws, blankTail w = true) :
+    docClean (joinNL (addTrail ls ws)) = docClean (joinNL ls) := by
+  unfold docClean
+  rw [split_join _ (addTrail_ne_nil ls ws hne) (addTrail_no_nl ls ws hl hw), split_join ls hne hl,
+    map_rstrip_addTrail ls ws hw]
+
+/-- ... for EVERY text `s` (its lines are `s.split('\n')`) -/
+theorem doc_trailing_ws_text (s : List Char) (ws : List (List Char)) (hw : ∀ w ∈ ws, blankTail w = true) :
+    docClean (joinNL (addTrail (splitNL s) ws)) = docClean s := by
+  have h := doc_trailing_ws (splitNL s) ws (splitNL_ne_nil s) (splitNL_no_nl s) hw
+  rwa [join_split] at h
+
+/-- the lines of the result are the stripped lines of the text ... -/
+theorem doc_clean_lines (s : List Char) : splitNL (docClean s) = (splitNL s).map rstrip := by
+  unfold docClean
+  apply split_join
+  · simpa using splitNL_ne_nil s
+  · intro l hl
+    obtain ⟨l0, h0, rfl⟩ := List.mem_map.mp hl
+    exact fun hm => splitNL_no_nl s l0 h0 (rstrip_sub l0 _ hm)
+
+/-- ... none of which ends in white space ... -/
+theorem doc_clean_no_trailing (s : List Char) (l : List Char) (hl : l ∈ splitNL (docClean s)) (c : Char)
+    (hc : l.getLast? = some c) : isSpace c = false := by
+  rw [doc_clean_lines] at hl
+  obtain ⟨l0, _, rfl⟩ := List.mem_map.mp hl
+  exact rstrip_getLast l0 c hc
+
+/-- ... and the rule is idempotent -/
+theorem doc_clean_idem (s : List Char) : docClean (docClean s) = docClean (s) := by
+  have h := doc_clean_lines s
+  show joinNL ((splitNL (docClean s)).map rstrip) = docClean s
+  rw [h, List.map_map]
+  have : (rstrip ∘ rstrip) = rstrip := funext fun l => rstrip_idem l
+  rw [this]; rfl
+
+example : docCleanS "A note.  \nSecond line.\t\n   \nNew paragraph. " = "A note.\nSecond line.\n\nNew paragraph." := by
+  decide
+
+example : docClean (joinNL (addTrail ["ab".toList, [], "cd".toList] ["  ".toList, "\t ".toList]))
+    = docClean "ab\n\ncd".toList := by decide
+
+example : blankTail " \t 　\r".toList = true ∧ blankTail " \n".toList = false ∧ blankTail "x".toList = false := by
+  decide
+
+/-- trimming only the end of the whole text (what a `$` without MULTILINE does) is a different function: the white
+space of interior lines stays, and with it the paragraph break is lost downstream -/
+theorem doc_last_line_only_witness :
+    rstrip "a  \n  \nb ".toList = "a  \n  \nb".toList ∧ docClean "a  \n  \nb ".toList = "a\n\nb".toList := by decide
+
+end DocTrim
 
 end StoneVerif.C11
